@@ -8,10 +8,17 @@ import (
 	"encoding/json"
 	"fmt"
 	"os"
+	"reflect"
 	"runtime/debug"
+	"sync"
 	"time"
 
 	"github.com/cube2222/octosql/execution"
+	"github.com/cube2222/octosql/logical"
+	"github.com/cube2222/octosql/optimizer"
+	"github.com/cube2222/octosql/parser"
+	"github.com/cube2222/octosql/parser/sqlparser"
+	"github.com/cube2222/octosql/physical"
 
 	"github.com/cube2222/octosql/plugins/verifharness/core"
 	"github.com/cube2222/octosql/plugins/verifharness/nodeh"
@@ -69,4 +76,95 @@ func OnlyID(c *core.Ctx) string {
 		return id
 	}
 	return "unreadable-replay"
+}
+
+// ---------------------------------------------------------------------------------------------
+// Which descriptor did the real overload resolution pick? Descriptors are identified by the code
+// pointer of their Function (every descriptor of functions.FunctionMap() is a distinct closure).
+
+var descOnce sync.Once
+var descByPtr map[uintptr]string
+
+// DescriptorKey returns "name#index" of a descriptor of nodeh.FunctionMap() ("" if unknown).
+func DescriptorKey(d physical.FunctionDescriptor) string {
+	descOnce.Do(func() {
+		descByPtr = map[uintptr]string{}
+		for name, det := range nodeh.FunctionMap() {
+			for i, dd := range det.Descriptors {
+				descByPtr[reflect.ValueOf(dd.Function).Pointer()] = fmt.Sprintf("%s#%d", name, i)
+			}
+		}
+	})
+	if d.Function == nil {
+		return ""
+	}
+	return descByPtr[reflect.ValueOf(d.Function).Pointer()]
+}
+
+// SelectExprs returns the expressions of the top-level Map node of a plan (nil if it is not one).
+func SelectExprs(p *nodeh.Planned) []physical.Expression {
+	if p == nil || p.Physical.NodeType != physical.NodeTypeMap || p.Physical.Map == nil {
+		return nil
+	}
+	return p.Physical.Map.Expressions
+}
+
+// ---------------------------------------------------------------------------------------------
+// PlanWith is nodeh.Plan (Output "none") with a caller-supplied function map. It exists for one
+// purpose: deciding whether a violation is attributable to a known finding about a function
+// descriptor by re-planning the same query with exactly that descriptor's declaration changed.
+// The wiring is the same as nodeh.Plan's.
+func PlanWith(ctx context.Context, sql string, db *nodeh.DB, optimize bool, fm map[string]physical.FunctionDetails) (p *nodeh.Planned, perr *nodeh.PlanError) {
+	defer func() {
+		if r := recover(); r != nil {
+			p = nil
+			perr = &nodeh.PlanError{Stage: "panic", Err: fmt.Errorf("%v", r), Stack: string(debug.Stack())}
+		}
+	}()
+	env := nodeh.Env(db)
+	env.Functions = fm
+	statement, err := sqlparser.Parse(sql)
+	if err != nil {
+		return nil, &nodeh.PlanError{Stage: "parse", Err: err}
+	}
+	selectStmt, ok := statement.(sqlparser.SelectStatement)
+	if !ok {
+		return nil, &nodeh.PlanError{Stage: "parse", Err: fmt.Errorf("only SELECT statements are supported")}
+	}
+	logicalPlan, _, err := parser.ParseNode(selectStmt)
+	if err != nil {
+		return nil, &nodeh.PlanError{Stage: "logical", Err: err}
+	}
+	var physicalPlan physical.Node
+	var mapping map[string]string
+	func() {
+		defer func() {
+			if r := recover(); r != nil {
+				err = fmt.Errorf("typecheck error: %s", r)
+			}
+		}()
+		physicalPlan, mapping = logicalPlan.Typecheck(ctx, env, logical.Environment{
+			CommonTableExpressions: map[string]logical.CommonTableExpression{},
+			TableValuedFunctions:   nodeh.TVFs(),
+			UniqueNameGenerator:    map[string]int{},
+		})
+	}()
+	if err != nil {
+		return nil, &nodeh.PlanError{Stage: "typecheck", Err: err}
+	}
+	reverseMapping := logical.ReverseMapping(mapping)
+	if optimize {
+		physicalPlan = optimizer.Optimize(physicalPlan)
+	}
+	execPlan, err := physicalPlan.Materialize(ctx, env)
+	if err != nil {
+		return nil, &nodeh.PlanError{Stage: "materialize", Err: err}
+	}
+	out := &nodeh.Planned{Physical: physicalPlan, Schema: physicalPlan.Schema, Exec: execPlan}
+	out.OutFields = make([]physical.SchemaField, len(physicalPlan.Schema.Fields))
+	copy(out.OutFields, physicalPlan.Schema.Fields)
+	for i := range out.OutFields {
+		out.OutFields[i].Name = reverseMapping[out.OutFields[i].Name]
+	}
+	return out, nil
 }
